@@ -67,8 +67,42 @@ def _replay_with(conv, c, names, check, vals, pad):
     return bad
 
 
+class _Guard(object):
+    """the codec functions, with an exception turned into a value no judge accepts (the property gives them no
+    licence to raise for in-range input), so that a raising codec is reported instead of killing the harness"""
+
+    def __init__(self, conv):
+        self._c = conv
+
+    def scsi_int_to_ba(self, v, k):
+        try:
+            return self._c.scsi_int_to_ba(v, k)
+        except Exception:
+            return bytearray(b"\xEE\xEE\xEE\xEE\xEE\xEE\xEE\xEE\xEE\xEE\xEE\xEE\xEE")
+
+    def scsi_ba_to_int(self, ba):
+        try:
+            return self._c.scsi_ba_to_int(ba)
+        except Exception:
+            return -1
+
+    def encode_dict(self, d, check, buf):
+        try:
+            return self._c.encode_dict(d, check, buf)
+        except Exception:
+            buf[:] = bytes(len(buf) + 1)          # wrong length: the judge rejects it
+
+    def decode_bits(self, buf, check, out):
+        try:
+            return self._c.decode_bits(buf, check, out)
+        except Exception:
+            for k in check:
+                out.setdefault(k, -1)
+
+
 def gen_events(conv, rng, n_rand, wide):
     """code -> spec: record calls of the real functions."""
+    conv = _Guard(conv)
     ev = []
 
     def rec_encode(nbytes, layout, vals, bg, order):
@@ -78,6 +112,8 @@ def gen_events(conv, rng, n_rand, wide):
                 before[p // 8] &= ~(0x80 >> (p % 8)) & 0xFF
         names = ["f%d" % i for i in range(len(layout))]
         check = {nm: lib_notation(s, w, rng.choice([0, 0, 1, 2, 3]), nbytes) for nm, (s, w) in zip(names, layout)}
+        if rng.random() < 0.3:
+            check = {nm: tuple(v) for nm, v in check.items()}      # CheckDict allows (mask, offset) tuples as well
         after = bytearray(before)
         conv.encode_dict({names[i]: vals[i] for i in order}, check, after)
         ev.append({"fn": "encode", "layout": [[s, w] for s, w in layout], "vals": [num(v) for v in vals],
